@@ -134,7 +134,7 @@ func (drv *acpiDriver) enumerateTables(w io.Writer) *kernel.Error {
 			fadt := (*table.FADT)(unsafe.Pointer(header))
 
 			dsdtAddr := uintptr(fadt.Dsdt)
-			if acpiRev >= acpiRev2Plus {
+			if acpiRev >= acpiRev2Plus && fadt.Ext.Dsdt != 0 {
 				dsdtAddr = uintptr(fadt.Ext.Dsdt)
 			}
 
